@@ -15,7 +15,7 @@
 //! implementation's, two instances choose differently); two-key commands and MSETNX keep their keys
 //! on one shard (the cross-shard case is the listed findings `C03:two-key:*` / `C03:multi-key:MSETNX`,
 //! driven by the classes of c03.rs and refuted on the M7 instance by `m7_two_key_counterexample`).
-use crate::c03::{new_state_ctx, set_now, Ctx, Pending, State};
+use crate::c03::{new_state_ctx, set_now, Ctx, Pending};
 use crate::enc::{hex, key_cmp};
 use crate::out::Out;
 use crate::redisx::{enc_cmd, gen_cmd, reply_order, reply_text, score_text, BASE_MS, KEYS};
@@ -71,7 +71,7 @@ fn bulks(r: &RespValue) -> Vec<Vec<u8>> {
 
 /// the keyspace as a client sees it: every key of the universe read through ROUTED commands
 /// (TYPE, PTTL, the value by type), in the dump syntax of the C01 driver, plus what KEYS * lists
-pub(crate) async fn dump7(st: &State, universe: &[String]) -> String {
+pub(crate) async fn dump7<T: redis_sim::io::TimeSource>(st: &redis_sim::production::ShardedActorState<T>, universe: &[String]) -> String {
     let mut keys: Vec<String> = universe.to_vec();
     keys.sort_by(|a, b| key_cmp(a, b));
     let mut parts: Vec<String> = Vec::new();
